@@ -15,16 +15,15 @@ BASE_NOTE = ("Trusted: Coq 8.16.1 kernel + vm_compute (no native_compute, no axi
 
 # id -> (category, technique, level text, design ref, extra note)
 CLAIMS = {
-    "C01": ("proof", "Coq: king-safety half of soundness proved for every generator block (pin sets sound and complete, check mask, king steps, castling, en passant; ray geometry by finite sweeps), no-duplicates and promotions proved; full refinement stated, not proved as a whole; differential of the real generator against the executable 8x8 rules specification",
-            "PARTIAL proof. The refinement `generator = rules on all of D, no duplicates` is stated in coq/props/C01.v and not proved as a whole. Proved "
-            "(closed under the global context): on every position satisfying the invariant Inv0 (executable inv_b) and the en-passant consistency ep_ok_b, NO "
-            "generated move leaves the mover's king attacked (gen_legal: gi_allowed is the checking ray / the checker / empty, the pin sets are sound and "
-            "complete for 'only man between king and enemy slider', king steps via is_safe with the king lifted, castling incl. the horizontally pinned "
-            "Chess960 rook, en passant incl. the two-pawn discovery); without ep_ok_b the statement is false (witness theorem: a parser-accepted, "
-            "retro-inconsistent FEN); the legality filter of Rules.legal equals the engine's test on the made move (LegalBridge); no move is generated twice; "
-            "promotions come once per piece. Open: generated moves are pseudo-legal by the rules' own lists, and completeness. The property is decided by running the real "
-            "generator (all entry points) against the extracted specification spec/Rules.v on generated positions of D (play-outs, suite FENs, "
-            "Chess960/DFRC starts, pin/check/ep/castling/promotion templates): a test, not a proof.", "DESIGN.md section 6 C01", ""),
+    "C01": ("proof", "Coq: generated moves = legal moves of the rules as sets, no duplicates, for every position satisfying the executable invariant (pin sets sound and complete, check mask, converse pin theory, king steps, castling, en passant, ray geometry by finite sweeps, mirror symmetry of the rules for the Black frame); differential of the real generator against the executable 8x8 rules specification ties the model to the code",
+            "Proof on the model (closed under the global context): for every position satisfying the invariant Inv0 (executable inv_b: well-formed boards, one king a side, "
+            "castling rights backed by rook and king, side not to move not in check) and the en-passant consistency ep_ok_b, standard or Chess960, either side to move: "
+            "a move is generated iff it encodes a legal move of spec/Rules.v (pseudo-legal by the rules' own lists and king not attacked in the rules' successor), and no move "
+            "is generated twice; promotions once per piece (C01_movegen_exact, C01_movegen_sound, C01_movegen_complete). Without ep_ok_b soundness is false (witness theorem: a "
+            "parser-accepted, retro-inconsistent FEN). Both premises are kept by every generated move and null move and are evaluated (true) on every position of D the run uses. "
+            "Not proved: that the executable domain test in_D implies inv_b and ep_ok_b (evaluated instead), and NoDup of the specification's own list (needed only for the "
+            "Permutation form). The tie of the model to the Rust generator: the real generator (all entry points) against the extracted specification on generated positions of D (play-outs, suite FENs, "
+            "Chess960/DFRC starts, pin/check/ep/castling/promotion templates): a test, not a proof.", "DESIGN.md section 6 C01 and section 9", ""),
     "C02": ("proof", "Coq refinement proof makemove = Rules.apply for every move kind incl. castling in both geometries (stage decomposition, bit-by-bit board semantics, all nine state components) and for the null move; the executable premise and closure of D by differential model/implementation/Rules.apply on every legal move of sampled positions",
             "PARTIAL proof. Proved: (a) a null move passes the turn, clears the ep target, keeps absolute placement and rights; (b) for every "
             "move -- quiet, capture, double push, en passant, promotion with/without capture (test premises_b) and castling written "
